@@ -8,9 +8,11 @@ import (
 	"sort"
 	"strconv"
 	"strings"
+	"time"
 
 	"reservoir/zzverif/vnet"
 	"reservoir/zzverif/vrun"
+	"reservoir/zzverif/vtime"
 )
 
 func init() { vrun.Register("proxy/relay", scenarioRelay) }
@@ -178,17 +180,57 @@ func judgeRelay(c *vrun.Ctx, origin *vnet.Origin, send func(raw string) *vnet.Re
 	}
 	rounds := 1
 	if rc.store && rc.method == "GET" {
-		rounds = 2 // second answer comes from the store
+		// second answer comes from the store; for the third the entry has gone stale and the origin
+		// has moved on to a version that must not be stored: the proxy revalidates, cannot keep the
+		// answer and fetches again on the client's behalf
+		rounds = 3
 	}
+	version := 1
 	raw := buildRaw(&rc, absolute)
 	clientReq, _ := http.ReadRequest(bufioReader(raw))
 	for round := 0; round < rounds; round++ {
+		if round == 2 {
+			vtime.Advance(601 * time.Second)
+			origin.Bump(uri)
+			version = 2
+			for i := range res.Headers {
+				if res.Headers[i][0] == "Cache-Control" && res.Headers[i][1] == "max-age=600" {
+					res.Headers[i][1] = "no-store"
+				}
+			}
+		}
 		before := len(origin.Log)
 		resp := send(raw)
 		reqs := origin.Log[before:]
 		where := "relayed"
 		if round == 1 {
 			where = "from-store"
+		}
+		if round == 2 {
+			where = "stale-then-unstorable"
+			// every upstream request made for this exchange carries the client's end-to-end headers;
+			// only the revalidation (the first) may add the stored validators, which are the proxy's own
+			for i, rq := range reqs {
+				skip := map[string]bool{}
+				for k := range clientFraming {
+					skip[k] = true
+				}
+				if i == 0 {
+					skip["If-None-Match"], skip["If-Modified-Since"] = true, true
+				}
+				want := endToEnd(clientReq.Header, skip)
+				got := endToEnd(rq.Header, skip)
+				if dk := diffKey(want, got); dk != "" {
+					report("request-headers/"+where+"/"+dk, fmt.Sprintf("upstream request %d of %d after a revalidation that could not be kept: end-to-end request headers differ: client sent %v, origin received %v", i+1, len(reqs), want, got))
+				}
+				// a header that makes the request conditional or partial changes what is being asked for:
+				// the origin must not receive one the client did not send (the revalidation excepted)
+				for _, k := range []string{"If-None-Match", "If-Modified-Since", "If-Match", "If-Unmodified-Since", "If-Range", "Range"} {
+					if !skip[k] && rq.Header.Get(k) != "" && clientReq.Header.Get(k) == "" {
+						report("request-headers/"+where+"/added:"+k, fmt.Sprintf("upstream request %d of %d, made on the client's behalf after a revalidation that could not be kept, carries %s: %s, which the client never sent", i+1, len(reqs), k, rq.Header.Get(k)))
+					}
+				}
+			}
 		}
 		if resp.Err != "" || resp.Dropped {
 			report("no-response/"+where+"/"+featKey(rc), fmt.Sprintf("%s: status %d: %s", where, resp.Status, resp.Err))
@@ -227,7 +269,7 @@ func judgeRelay(c *vrun.Ctx, origin *vnet.Origin, send func(raw string) *vnet.Re
 			if rq.Header.Get("X-Hop") != "" {
 				report("connection-nominated-forwarded", "origin received X-Hop although the client's Connection header names it")
 			}
-		} else if len(reqs) != 0 {
+		} else if len(reqs) != 0 && round == 1 {
 			// not from the store after all (e.g. not storable): still judged as a relayed answer
 			where = "relayed-again"
 		}
@@ -241,7 +283,7 @@ func judgeRelay(c *vrun.Ctx, origin *vnet.Origin, send func(raw string) *vnet.Re
 		}
 		wantBody := ""
 		if rc.method != "HEAD" && wantStatus != 204 {
-			wantBody = string(vnet.Body(name, 1, rc.respSize))
+			wantBody = string(vnet.Body(name, version, rc.respSize))
 		}
 		if resp.Body != wantBody {
 			report("response-body-changed/"+where, fmt.Sprintf("origin sent %d body bytes, client received %d", len(wantBody), len(resp.Body)))
